@@ -47,11 +47,6 @@ func VH_C06_NewUserSubset() {
 	}
 }
 
-func vSubField(id [2]byte, data []byte) []byte {
-	out := []byte{id[0], id[1], byte(len(data) >> 8), byte(len(data))}
-	return append(out, data...)
-}
-
 // Batched update-user, create branch (login does not exist): same subset rule.
 func VH_C06_UpdateUserCreateSubset() {
 	srv, cc := vNewServer()
